@@ -176,7 +176,9 @@ PROPS = {
                     "checksum is xxh3 of the model's stream; what one glob pattern matches (mvdan/sh expansion) is an oracle",
                     "the harness's copy of the goodRun monitor is tied to the Lean definition by comparing its verdict (g=) on every step"],
         "assumptions": ["status: commands are `test -f`, commands only write their declared files and append to a trace; no deps, "
-                        "no preconditions, no sub-task calls; sources readable; explicit whole-second mtimes"],
+                        "no preconditions, no sub-task calls; sources readable; explicit whole-second mtimes; every sources pattern matches "
+                        "below the task directory (no `..`), so the name hashed with a file (its path relative to t.Dir) is its root-relative "
+                        "path without the `dir/` prefix"],
         "level_text": "Theorems over TaskModel.Finger.invoke (mirror of RunTask / IsTaskUpToDate / Checksum- and TimestampChecker): C04_partial "
                       "(method checksum, pairwise distinct normalised names, histories of any length made of successful runs, runs failing in the "
                       "command loop, runs cancelled at the prompt, --dry, --status, --force, list/summary queries and arbitrary file edits: skip "
